@@ -1,4 +1,5 @@
 import IbicusModel.Props.C04
+import IbicusModel.Props.C04Gen
 -- property theorems (per window, then whole series)
 #print axioms Props.C04.sort_map_mono
 #print axioms Props.C04.rank_map_mono
@@ -57,6 +58,12 @@ import IbicusModel.Props.C04
 #print axioms Lemmas.C04.applyLocationRW_equivariant_on
 #print axioms Lemmas.C04.applyLocationMonths_equivariant_on
 -- tier A: regenerated kernels = model
+#print axioms Props.C04.isimip_flags_are_generated
+#print axioms Props.C04.isimip_unbounded_flags_generated
+#print axioms Lemmas.GenConfig.has_lower_threshold
+#print axioms Lemmas.GenConfig.has_lower_bound
+#print axioms Lemmas.GenConfig.has_upper_threshold
+#print axioms Lemmas.GenConfig.has_upper_bound
 #print axioms Lemmas.GenDebiasers.ls_apply_on_window
 #print axioms Lemmas.GenDebiasers.dc_apply_on_within_year_window
 #print axioms Lemmas.GenDebiasers.linearScalingS_additive
